@@ -213,6 +213,8 @@ def c06(r):
 @prop('C08')
 def c08(r):
     r.assumptions += ['a declared but unassigned local reads as a null of unspecified type (wildcard in the ideal layer)']
+    r.mc('BlocCallCache', 'MC_C08.cfg', 'implementation-shaped callee-context cache (createEnv / Env): every body starts with unset locals, no return condition and '
+         'depth = caller + 1, no context is lost, for all interleavings of calls (binding ok / failing), local/return effects and returns of 2 functions, recursion limit 4, <= 5 contexts')
     h = 2 if r.quick else 3
     scs = r.gen('Gen_C08', 'Gen_C08.cfg', env={'GEN_DEPTH': str(h)}, timeout=3000)
     r.exhaustive = True
@@ -246,6 +248,9 @@ def c09(r):
 def c11(r):
     r.assumptions += ['a derived text that the parser accepts is not judged (its meaning is unknown to the generator); only rejected texts are',
                       'names introduced only by the rejected text are exempt (they may exist as nulls)']
+    r.mc('BlocParseTxn', 'MC_C11.cfg', 'implementation-shaped compilation unit (symbol re-typing with undo log, function table with statement-level rollback and unit journal): '
+         'after a rejected unit every pre-existing name and function is as before, no body-less function stays callable, functions only the rejected unit declared are unknown; '
+         '<= 3 units, 2 names x 2 types, 2 functions x 2 bodies')
     scs = r.gen('Gen_C11', 'Gen_C11.cfg', timeout=3000)
     r.exhaustive = True
     obs = r.conform(scs)
